@@ -1,73 +1,713 @@
+// c12: correspondence harness and property oracle for board creation (property C12).
+//
+// It drives the REAL ptt.NewBoard on a private BBSHOME and a private SysV segment.  Every history starts with a
+// `reset` line that writes a real .BRD (256-byte headers + optional torn tail), a real .PASSWDS (the user table
+// SanitizeBMs / ParseBMList resolve moderators in), the boards/<c>[/<name>] directories, zeroes the segment and
+// runs cache.LoadUHash + cache.ReloadBCache.  After every request it prints the result class and an observation
+// of .BRD (changed slots, digest, the record of the touched slot), Shm.BCache (changed slots, digest, the touched
+// entry), BMCache, cache.GetBid of every name of the history's pool, BNumber, both BSorted prefixes and the
+// listing of boards/*/*; the Lean driver prints the same line from the model.
+//
+// The property oracle (oracle.go) does not use the model: it keeps the abstract board table in Go, builds the
+// expected header with encoding/binary, and byte-compares files and shared memory before/after.
 package main
 
 import (
 	"bytes"
 	"encoding/binary"
+	"encoding/hex"
+	"errors"
 	"fmt"
 	"os"
 	"path/filepath"
+	"sort"
+	"strconv"
+	"strings"
+	"time"
+	"unsafe"
 
 	"github.com/Ptt-official-app/go-pttbbs/cache"
 	"github.com/Ptt-official-app/go-pttbbs/ptt"
 	"github.com/Ptt-official-app/go-pttbbs/ptttype"
 	"verifharness/internal/bbsenv"
+	"verifharness/internal/hx"
 )
 
-func bid13(s string) *ptttype.BoardID_t { b := &ptttype.BoardID_t{}; copy(b[:], s); return b }
+const (
+	MAXB  = int(ptttype.MAX_BOARD)
+	MAXU  = int(ptttype.MAX_USERS)
+	RECSZ = int(ptttype.BOARD_HEADER_RAW_SZ)
+)
 
-func main() {
-	env, err := bbsenv.New(bbsenv.Options{})
+var (
+	offName  = int(unsafe.Offsetof(ptttype.EMPTY_BOARD_HEADER_RAW.Brdname))
+	offTitle = int(unsafe.Offsetof(ptttype.EMPTY_BOARD_HEADER_RAW.Title))
+	offBM    = int(unsafe.Offsetof(ptttype.EMPTY_BOARD_HEADER_RAW.BM))
+	offAttr  = int(unsafe.Offsetof(ptttype.EMPTY_BOARD_HEADER_RAW.BrdAttr))
+	offChess = int(unsafe.Offsetof(ptttype.EMPTY_BOARD_HEADER_RAW.ChessCountry))
+	offLevel = int(unsafe.Offsetof(ptttype.EMPTY_BOARD_HEADER_RAW.Level))
+	offGid   = int(unsafe.Offsetof(ptttype.EMPTY_BOARD_HEADER_RAW.Gid))
+	offFC    = int(unsafe.Offsetof(ptttype.EMPTY_BOARD_HEADER_RAW.FirstChild))
+
+	run *hx.Run
+	env *bbsenv.Env
+)
+
+// ---- token syntax (the Lean driver implements the same rules) -----------------------
+
+func parseNat(s string, maxDigits int) (uint64, bool) {
+	if len(s) == 0 || len(s) > maxDigits {
+		return 0, false
+	}
+	for i := 0; i < len(s); i++ {
+		if s[i] < '0' || s[i] > '9' {
+			return 0, false
+		}
+	}
+	v, err := strconv.ParseUint(s, 10, 64)
+	return v, err == nil
+}
+
+func parseU32(s string) (uint32, bool) {
+	v, ok := parseNat(s, 10)
+	if !ok || v > 4294967295 {
+		return 0, false
+	}
+	return uint32(v), true
+}
+
+func parseI32(s string) (int32, bool) {
+	t := strings.TrimPrefix(s, "-")
+	v, ok := parseNat(t, 10)
+	if !ok {
+		return 0, false
+	}
+	if strings.HasPrefix(s, "-") {
+		if v > 2147483648 {
+			return 0, false
+		}
+		return int32(-int64(v)), true
+	}
+	if v > 2147483647 {
+		return 0, false
+	}
+	return int32(v), true
+}
+
+func parseBytes(s string, maxLen int) ([]byte, bool) {
+	if s == "-" {
+		return []byte{}, true
+	}
+	if s == "" {
+		return nil, false
+	}
+	b, err := hex.DecodeString(s)
+	if err != nil || len(b) > maxLen {
+		return nil, false
+	}
+	return b, true
+}
+
+func parseCsvBytes(s string, maxLen int) ([][]byte, bool) {
+	if s == "-" {
+		return nil, true
+	}
+	var out [][]byte
+	for _, t := range strings.Split(s, ",") {
+		if t == "." {
+			out = append(out, []byte{})
+			continue
+		}
+		if t == "-" {
+			return nil, false
+		}
+		b, ok := parseBytes(t, maxLen)
+		if !ok {
+			return nil, false
+		}
+		out = append(out, b)
+	}
+	return out, true
+}
+
+func csvBytes(bs [][]byte) string {
+	if len(bs) == 0 {
+		return "-"
+	}
+	ss := make([]string, len(bs))
+	for i, b := range bs {
+		if len(b) == 0 {
+			ss[i] = "."
+		} else {
+			ss[i] = hex.EncodeToString(b)
+		}
+	}
+	return strings.Join(ss, ",")
+}
+
+// ---- digests ----------------------------------------------------------------------------
+
+const fnvInit = uint64(14695981039346656037)
+
+func fnvStep(h uint64, b byte) uint64 { return (h ^ uint64(b)) * 1099511628211 }
+
+func fnvBytes(h uint64, p []byte) uint64 {
+	for _, b := range p {
+		h = fnvStep(h, b)
+	}
+	return h
+}
+
+func fnvU64(h uint64, v uint64) uint64 {
+	for k := 0; k < 8; k++ {
+		h = fnvStep(h, byte(v>>(8*uint(k))))
+	}
+	return h
+}
+
+// digestRecs: FNV over the 8 LE bytes of the FNV of every complete 256-byte record, then over the tail.
+func digestRecs(f []byte) string {
+	n := len(f) / RECSZ
+	h := fnvInit
+	for i := 0; i < n; i++ {
+		h = fnvU64(h, fnvBytes(fnvInit, f[i*RECSZ:(i+1)*RECSZ]))
+	}
+	h = fnvBytes(h, f[n*RECSZ:])
+	return fmt.Sprintf("%016x", h)
+}
+
+func lcgFill(seed uint64, n int) []byte {
+	x := seed
+	b := make([]byte, n)
+	for i := range b {
+		x = x*6364136223846793005 + 1442695040888963407
+		b[i] = byte(x >> 56)
+	}
+	return b
+}
+
+// ---- reading the implementation's state ------------------------------------------------------
+
+func readBRD() []byte {
+	b, err := os.ReadFile(ptttype.FN_BOARD)
+	if err != nil {
+		return nil
+	}
+	return b
+}
+
+func cacheBytes() []byte {
+	const sz = unsafe.Sizeof(cache.Shm.Raw.BCache)
+	p := (*[sz]byte)(unsafe.Pointer(&cache.Shm.Shm.BCache))
+	out := make([]byte, sz)
+	copy(out, p[:])
+	return out
+}
+
+func bmCacheNow() [][ptttype.MAX_BMs]ptttype.UID {
+	out := make([][ptttype.MAX_BMs]ptttype.UID, MAXB)
+	for i := range out {
+		out[i] = cache.Shm.Shm.BMCache[i]
+	}
+	return out
+}
+
+func sortedNow(by ptttype.BSortBy, n int) []int32 {
+	if n < 0 {
+		n = 0
+	}
+	if n > MAXB {
+		n = MAXB
+	}
+	out := make([]int32, n)
+	for i := 0; i < n; i++ {
+		out[i] = int32(cache.Shm.Shm.BSorted[by][i])
+	}
+	return out
+}
+
+// listDirs: the names of the directories boards/<c>/<name>, bytewise sorted.
+func listDirs() [][]byte {
+	var out [][]byte
+	cs, _ := os.ReadDir(env.Path("boards"))
+	for _, c := range cs {
+		if !c.IsDir() {
+			continue
+		}
+		ns, _ := os.ReadDir(env.Path("boards", c.Name()))
+		for _, n := range ns {
+			if n.IsDir() {
+				out = append(out, []byte(n.Name()))
+			}
+		}
+	}
+	sort.Slice(out, func(i, j int) bool { return bytes.Compare(out[i], out[j]) < 0 })
+	return out
+}
+
+type snapshot struct {
+	brd   []byte
+	cache []byte
+	bn    int32
+	sn    []int32
+	sc    []int32
+	bmc   [][ptttype.MAX_BMs]ptttype.UID
+	dirs  [][]byte
+}
+
+func snap() *snapshot {
+	bn := cache.Shm.Shm.BNumber
+	return &snapshot{brd: readBRD(), cache: cacheBytes(), bn: bn, sn: sortedNow(ptttype.BSORT_BY_NAME, int(bn)),
+		sc: sortedNow(ptttype.BSORT_BY_CLASS, int(bn)), bmc: bmCacheNow(), dirs: listDirs()}
+}
+
+func changedSlots(old, new []byte) []int {
+	n := len(old) / RECSZ
+	if m := len(new) / RECSZ; m > n {
+		n = m
+	}
+	rec := func(f []byte, i int) []byte {
+		if (i+1)*RECSZ <= len(f) {
+			return f[i*RECSZ : (i+1)*RECSZ]
+		}
+		return nil
+	}
+	var out []int
+	for i := 0; i < n; i++ {
+		a, b := rec(old, i), rec(new, i)
+		if (a == nil) != (b == nil) || !bytes.Equal(a, b) {
+			out = append(out, i)
+		}
+	}
+	return out
+}
+
+func csvInts(xs []int) string {
+	if len(xs) == 0 {
+		return "-"
+	}
+	ss := make([]string, len(xs))
+	for i, x := range xs {
+		ss[i] = strconv.Itoa(x)
+	}
+	return strings.Join(ss, ",")
+}
+
+func csvI32(xs []int32) string {
+	if len(xs) == 0 {
+		return "-"
+	}
+	ss := make([]string, len(xs))
+	for i, x := range xs {
+		ss[i] = strconv.Itoa(int(x))
+	}
+	return strings.Join(ss, ",")
+}
+
+var pool [][]byte
+
+func observe(before, now *snapshot, slot int) string {
+	rec, cac, bmc := "-", "-", "-"
+	if slot >= 0 {
+		if (slot+1)*RECSZ <= len(now.brd) {
+			rec = hx.Hex(now.brd[slot*RECSZ : (slot+1)*RECSZ])
+		}
+		if slot < MAXB {
+			cac = hx.Hex(now.cache[slot*RECSZ : (slot+1)*RECSZ])
+			u := now.bmc[slot]
+			ss := make([]string, len(u))
+			for i, v := range u {
+				ss[i] = strconv.Itoa(int(v))
+			}
+			bmc = strings.Join(ss, ",")
+		}
+	}
+	idx := make([]string, len(pool))
+	for i, p := range pool {
+		id := &ptttype.BoardID_t{}
+		copy(id[:], p)
+		var bid ptttype.Bid
+		o := hx.CallSync(func() string { bid, _ = cache.GetBid(id); return "" })
+		if o == "PANIC" {
+			idx[i] = "PANIC"
+		} else {
+			idx[i] = strconv.Itoa(int(bid))
+		}
+	}
+	idxs := "-"
+	if len(idx) > 0 {
+		idxs = strings.Join(idx, ",")
+	}
+	h := fnvInit
+	for _, u := range now.bmc {
+		for _, v := range u {
+			var b [4]byte
+			binary.LittleEndian.PutUint32(b[:], uint32(v))
+			h = fnvBytes(h, b[:])
+		}
+	}
+	dirs := "-"
+	if len(now.dirs) > 0 {
+		ss := make([]string, len(now.dirs))
+		for i, d := range now.dirs {
+			ss[i] = hx.Hex(d)
+		}
+		dirs = strings.Join(ss, ",")
+	}
+	return fmt.Sprintf("bn=%d nrec=%d tail=%d chg=%s cchg=%s brd=%s cached=%s rec=%s cache=%s bmc=%s bmcd=%016x idx=%s sn=%s sc=%s dirs=%s",
+		now.bn, len(now.brd)/RECSZ, len(now.brd)%RECSZ, csvInts(changedSlots(before.brd, now.brd)),
+		csvInts(changedSlots(before.cache, now.cache)), digestRecs(now.brd), digestRecs(now.cache), rec, cac, bmc, h,
+		idxs, csvI32(now.sn), csvI32(now.sc), dirs)
+}
+
+// ---- reset ---------------------------------------------------------------------------------
+
+type slotSpec struct {
+	junk                    bool
+	name, title, bm         []byte
+	attr, level, gid, chess uint32
+}
+
+func (s *slotSpec) token() string {
+	fl := "c"
+	if s.junk {
+		fl = "j"
+	}
+	return fmt.Sprintf("%s:%s:%s:%s:%d:%d:%d:%d", fl, hx.Hex(s.name), hx.Hex(s.title), hx.Hex(s.bm), s.attr, s.chess, s.level, s.gid)
+}
+
+func parseSlot(tok string) (*slotSpec, bool) {
+	p := strings.Split(tok, ":")
+	if len(p) != 8 || (p[0] != "c" && p[0] != "j") {
+		return nil, false
+	}
+	nm, ok1 := parseBytes(p[1], 13)
+	ti, ok2 := parseBytes(p[2], 49)
+	bm, ok3 := parseBytes(p[3], 39)
+	at, ok4 := parseU32(p[4])
+	ch, ok5 := parseNat(p[5], 3)
+	lv, ok6 := parseU32(p[6])
+	gd, ok7 := parseU32(p[7])
+	if !(ok1 && ok2 && ok3 && ok4 && ok5 && ok6 && ok7) || ch > 255 {
+		return nil, false
+	}
+	return &slotSpec{junk: p[0] == "j", name: nm, title: ti, bm: bm, attr: at, chess: uint32(ch), level: lv, gid: gd}, true
+}
+
+func pad(b []byte, n int) []byte {
+	out := make([]byte, n)
+	copy(out, b)
+	return out
+}
+
+func (s *slotSpec) image(seed uint64, i int) []byte {
+	img := make([]byte, RECSZ)
+	if s.junk {
+		img = lcgFill(seed+1000003*uint64(i+1), RECSZ)
+	}
+	copy(img[offName:], pad(s.name, 13))
+	copy(img[offTitle:], pad(s.title, 49))
+	copy(img[offBM:], pad(s.bm, 39))
+	binary.LittleEndian.PutUint32(img[offAttr:], s.attr)
+	img[offChess] = byte(s.chess)
+	binary.LittleEndian.PutUint32(img[offLevel:], s.level)
+	binary.LittleEndian.PutUint32(img[offGid:], s.gid)
+	return img
+}
+
+type resetSpec struct {
+	users   [][]byte
+	letters []byte
+	dirs    [][]byte
+	pool    [][]byte
+	seed    uint64
+	tail    int
+	slots   []*slotSpec
+}
+
+func (r *resetSpec) line() string {
+	ws := []string{"reset", csvBytes(r.users), hx.Hex(r.letters), csvBytes(r.dirs), csvBytes(r.pool),
+		strconv.FormatUint(r.seed, 10), strconv.Itoa(r.tail), strconv.Itoa(len(r.slots))}
+	for _, s := range r.slots {
+		ws = append(ws, s.token())
+	}
+	return strings.Join(ws, " ")
+}
+
+func parseReset(ws []string) (*resetSpec, bool) {
+	if len(ws) < 7 {
+		return nil, false
+	}
+	users, ok1 := parseCsvBytes(ws[0], 13)
+	letters, ok2 := parseBytes(ws[1], 256)
+	dirs, ok3 := parseCsvBytes(ws[2], 13)
+	pl, ok4 := parseCsvBytes(ws[3], 13)
+	seed, ok5 := parseNat(ws[4], 19)
+	tail, ok6 := parseNat(ws[5], 3)
+	nrec, ok7 := parseNat(ws[6], 3)
+	if !(ok1 && ok2 && ok3 && ok4 && ok5 && ok6 && ok7) || len(users) > MAXU || tail >= 256 || int(nrec) > 2*MAXB ||
+		len(ws)-7 != int(nrec) {
+		return nil, false
+	}
+	r := &resetSpec{users: users, letters: letters, dirs: dirs, pool: pl, seed: seed, tail: int(tail)}
+	for _, t := range ws[7:] {
+		s, ok := parseSlot(t)
+		if !ok {
+			return nil, false
+		}
+		r.slots = append(r.slots, s)
+	}
+	return r, true
+}
+
+func must(err error) {
 	if err != nil {
 		panic(err)
 	}
-	defer env.Close()
-	// users
-	var ub bytes.Buffer
-	mk := func(id string, lvl ptttype.PERM) *ptttype.UserecRaw {
-		u := &ptttype.UserecRaw{}
-		copy(u.UserID[:], id)
-		u.UserLevel = lvl
-		binary.Write(&ub, binary.LittleEndian, u)
-		return u
-	}
-	sysop := mk("SYSOP", ptttype.PERM_SYSOP|ptttype.PERM_BOARD|ptttype.PERM_BASIC|ptttype.PERM_LOGINOK)
-	brd := mk("brdman", ptttype.PERM_BOARD|ptttype.PERM_BASIC|ptttype.PERM_LOGINOK)
-	_ = sysop
-	os.WriteFile(ptttype.FN_PASSWD, ub.Bytes(), 0o600)
-	// full table
-	var bb bytes.Buffer
-	for i := 0; i < ptttype.MAX_BOARD; i++ {
-		h := &ptttype.BoardHeaderRaw{}
-		copy(h.Brdname[:], fmt.Sprintf("brd%03d", i))
-		binary.Write(&bb, binary.LittleEndian, h)
-	}
-	os.WriteFile(ptttype.FN_BOARD, bb.Bytes(), 0o600)
-	for c := 'A'; c <= 'Z'; c++ {
-		os.MkdirAll(env.Path("boards", string(c)), 0o755)
-		os.MkdirAll(env.Path("boards", string(c+32)), 0o755)
-	}
-	if err := env.ResetSHM(); err != nil {
-		panic(err)
-	}
-	fmt.Println("bnumber", cache.NumBoards())
-	s, err := ptt.NewBoard(brd, 2, 1, bid13("Newone"), []byte("CLS "), []byte("title"), nil, 0, 0, 0, false)
-	fmt.Println("full:", s, err)
-	m, _ := filepath.Glob(env.Path("boards", "N", "*"))
-	fmt.Println("dirs:", m)
-	s, err = ptt.NewBoard(brd, 2, 1, bid13("Newone"), []byte("CLS "), []byte("title"), nil, 0, 0, 0, false)
-	fmt.Println("full again:", s, err)
+}
 
-	// hidden board by PERM_BOARD non-sysop, on table with room
-	bb.Reset()
-	for i := 0; i < 5; i++ {
-		h := &ptttype.BoardHeaderRaw{}
-		copy(h.Brdname[:], fmt.Sprintf("brd%03d", i))
-		binary.Write(&bb, binary.LittleEndian, h)
+func doReset(r *resetSpec) string {
+	before := snap()
+	// .PASSWDS: MAX_USERS records, the given ids first
+	var ub bytes.Buffer
+	for i := 0; i < MAXU; i++ {
+		u := &ptttype.UserecRaw{}
+		if i < len(r.users) {
+			copy(u.UserID[:], r.users[i])
+		}
+		must(binary.Write(&ub, binary.LittleEndian, u))
 	}
-	os.WriteFile(ptttype.FN_BOARD, bb.Bytes(), 0o600)
-	env.ResetSHM()
-	s, err = ptt.NewBoard(brd, 2, 1, bid13("Hidden"), []byte("CLS "), []byte("title"), nil, ptttype.BRD_HIDE, 0, 0, false)
-	fmt.Println("hidden:", s, err)
-	f, _ := os.ReadFile(ptttype.FN_BOARD)
-	fmt.Printf("file attr % x  cache attr %08x  file len %d\n", f[5*256+104:5*256+108], uint32(cache.Shm.Shm.BCache[5].BrdAttr), len(f))
+	must(os.WriteFile(ptttype.FN_PASSWD, ub.Bytes(), 0o600))
+	// boards/
+	must(os.RemoveAll(env.Path("boards")))
+	must(os.MkdirAll(env.Path("boards"), 0o755))
+	for _, c := range r.letters {
+		must(os.MkdirAll(env.Path("boards", string([]byte{c})), 0o755))
+	}
+	for _, d := range r.dirs {
+		if len(d) == 0 {
+			continue
+		}
+		must(os.MkdirAll(env.Path("boards", string(d[:1]), string(d)), 0o755))
+	}
+	// .BRD
+	var bb bytes.Buffer
+	for i, s := range r.slots {
+		bb.Write(s.image(r.seed, i))
+	}
+	bb.Write(lcgFill(r.seed+7, r.tail))
+	must(os.WriteFile(ptttype.FN_BOARD, bb.Bytes(), 0o600))
+	// shared memory
+	cache.Shm.Reset()
+	must(cache.LoadUHash())
+	cache.ReloadBCache()
+	pool = r.pool
+	now := snap()
+	before.brd = now.brd
+	before.cache = make([]byte, len(now.cache)) // the model starts from a zeroed BCache
+	P.reset(r, now)
+	return "ok " + observe(before, now, -1)
+}
+
+// ---- create -----------------------------------------------------------------------------------
+
+type request struct {
+	user           []byte
+	ulevel         uint32
+	uid, cls       int32
+	name           []byte
+	bclass, btitle []byte
+	bms            []byte // nil: nil pointer
+	bmsNil         bool
+	attr, level    uint32
+	chess          uint32
+	isGroup        bool
+}
+
+func (q *request) line() string {
+	bms := "nil"
+	if !q.bmsNil {
+		bms = hx.Hex(q.bms)
+	}
+	g := "0"
+	if q.isGroup {
+		g = "1"
+	}
+	return fmt.Sprintf("create %s %d %d %d %s %s %s %s %d %d %d %s", hx.Hex(q.user), q.ulevel, q.uid, q.cls, hx.Hex(q.name),
+		hx.Hex(q.bclass), hx.Hex(q.btitle), bms, q.attr, q.level, q.chess, g)
+}
+
+func parseReq(ws []string) (*request, bool) {
+	if len(ws) != 12 {
+		return nil, false
+	}
+	q := &request{}
+	var ok [11]bool
+	q.user, ok[0] = parseBytes(ws[0], 13)
+	q.ulevel, ok[1] = parseU32(ws[1])
+	q.uid, ok[2] = parseI32(ws[2])
+	q.cls, ok[3] = parseI32(ws[3])
+	q.name, ok[4] = parseBytes(ws[4], 13)
+	q.bclass, ok[5] = parseBytes(ws[5], 64)
+	q.btitle, ok[6] = parseBytes(ws[6], 128)
+	if ws[7] == "nil" {
+		q.bmsNil, ok[7] = true, true
+	} else {
+		q.bms, ok[7] = parseBytes(ws[7], 39)
+	}
+	q.attr, ok[8] = parseU32(ws[8])
+	q.level, ok[9] = parseU32(ws[9])
+	ch, okc := parseNat(ws[10], 3)
+	q.chess, ok[10] = uint32(ch), okc && ch <= 255
+	for _, o := range ok {
+		if !o {
+			return nil, false
+		}
+	}
+	if ws[11] != "0" && ws[11] != "1" {
+		return nil, false
+	}
+	q.isGroup = ws[11] == "1"
+	return q, true
+}
+
+func errClass(err error) string {
+	switch {
+	case errors.Is(err, ptttype.ErrInvalidBid):
+		return "invalid-bid"
+	case errors.Is(err, ptt.ErrNotPermitted):
+		return "not-permitted"
+	case errors.Is(err, ptttype.ErrInvalidBoardID):
+		return "invalid-name"
+	case errors.Is(err, ptttype.ErrBoardIDAlreadyExists):
+		return "exists"
+	case errors.Is(err, ptt.ErrTooManyBoards):
+		return "too-many"
+	case os.IsExist(err):
+		return "mkdir-exist"
+	case os.IsNotExist(err):
+		return "mkdir-noent"
+	default:
+		return "io"
+	}
+}
+
+var haveState bool
+
+// exec runs one op line on the real code. Returns the canonical answer, a histogram label and whether the op
+// reached the real function.
+func exec(i int, line string) (out, label string, nontrivial bool) {
+	ws := strings.Fields(line)
+	if len(ws) == 0 {
+		return "bad-op", "bad-op", false
+	}
+	switch ws[0] {
+	case "layout":
+		if len(ws) != 1 {
+			return "bad-op", "bad-op", false
+		}
+		return layoutLine(), "layout", false
+	case "reset":
+		r, ok := parseReset(ws[1:])
+		if !ok {
+			return "bad-op", "bad-op", false
+		}
+		haveState = true
+		o := doReset(r)
+		return o, "reset:" + P.shape, false
+	case "create":
+		q, ok := parseReq(ws[1:])
+		if !ok || !haveState {
+			return "bad-op", "bad-op", false
+		}
+		before := snap()
+		user := &ptttype.UserecRaw{UserLevel: ptttype.PERM(q.ulevel)}
+		copy(user.UserID[:], q.user)
+		name := &ptttype.BoardID_t{}
+		copy(name[:], q.name)
+		var bms *ptttype.BM_t
+		if !q.bmsNil {
+			bms = &ptttype.BM_t{}
+			copy(bms[:], q.bms)
+		}
+		var sum *ptttype.BoardSummaryRaw
+		var err error
+		o := hx.CallT(8*time.Second, func() string {
+			sum, err = ptt.NewBoard(user, ptttype.UID(q.uid), ptttype.Bid(q.cls), name, q.bclass, q.btitle, bms,
+				ptttype.BrdAttr(q.attr), ptttype.PERM(q.level), ptttype.ChessCode(q.chess), q.isGroup)
+			return ""
+		})
+		res := o
+		slot := -1
+		switch {
+		case o != "":
+		case err != nil:
+			res = errClass(err)
+		case sum == nil:
+			res = "ok:nil"
+		default:
+			res = fmt.Sprintf("ok:%d", sum.Bid)
+			slot = int(sum.Bid) - 1
+		}
+		now := snap()
+		br := P.judge(i, line, q, res, slot, before, now)
+		cls := res
+		if strings.HasPrefix(res, "ok:") {
+			cls = "ok"
+		}
+		return res + " " + observe(before, now, slot), "create:" + cls + ":" + br, true
+	}
+	return "bad-op", "bad-op", false
+}
+
+func layoutLine() string {
+	f := fmt.Sprintf("Brdname=%d/%d Title=%d/%d BM=%d/%d BrdAttr=%d/%d ChessCountry=%d/%d Level=%d/%d Gid=%d/%d FirstChild=%d/%d",
+		offName, unsafe.Sizeof(ptttype.EMPTY_BOARD_HEADER_RAW.Brdname), offTitle, unsafe.Sizeof(ptttype.EMPTY_BOARD_HEADER_RAW.Title),
+		offBM, unsafe.Sizeof(ptttype.EMPTY_BOARD_HEADER_RAW.BM), offAttr, unsafe.Sizeof(ptttype.EMPTY_BOARD_HEADER_RAW.BrdAttr),
+		offChess, unsafe.Sizeof(ptttype.EMPTY_BOARD_HEADER_RAW.ChessCountry), offLevel, unsafe.Sizeof(ptttype.EMPTY_BOARD_HEADER_RAW.Level),
+		offGid, unsafe.Sizeof(ptttype.EMPTY_BOARD_HEADER_RAW.Gid), offFC, unsafe.Sizeof(ptttype.EMPTY_BOARD_HEADER_RAW.FirstChild))
+	return fmt.Sprintf("max=%d idlen=%d maxbms=%d maxusers=%d rec=%d %s uidsz=%d group=%d hide=%d postmask=%d cplog=%d basic=%d loginok=%d bm=%d board=%d sysop=%d police=%d policeman=%d autocplog=%v symg=%s symb=%s",
+		MAXB, ptttype.IDLEN, ptttype.MAX_BMs, MAXU, RECSZ, f, unsafe.Sizeof(ptttype.UserID_t{}),
+		uint32(ptttype.BRD_GROUPBOARD), uint32(ptttype.BRD_HIDE), uint32(ptttype.BRD_POSTMASK), uint32(ptttype.BRD_CPLOG),
+		uint32(ptttype.PERM_BASIC), uint32(ptttype.PERM_LOGINOK), uint32(ptttype.PERM_BM), uint32(ptttype.PERM_BOARD),
+		uint32(ptttype.PERM_SYSOP), uint32(ptttype.PERM_POLICE), uint32(ptttype.PERM_POLICE_MAN), ptttype.DEFAULT_AUTOCPLOG,
+		hx.Hex(ptttype.BRD_SYMBOL_GROUP), hx.Hex(ptttype.BRD_SYMBOL_BOARD))
+}
+
+var opCount int
+
+func do(line string) {
+	i := opCount
+	out, label, nt := exec(i, line)
+	if got := run.Op(line, out, label, nt); got != i {
+		panic("c12: op index out of step")
+	}
+	opCount++
+}
+
+func main() {
+	run = hx.Start("C12")
+	defer run.Finish()
+	var err error
+	env, err = bbsenv.New(bbsenv.Options{})
+	if err != nil {
+		fmt.Fprintln(os.Stderr, "bbsenv:", err)
+		os.Exit(2)
+	}
+	defer env.Close()
+	cache.IsTest = true // Shm.Reset is a no-op otherwise
+	_ = filepath.Join
+	run.Rule = "histories `reset; create*` through the real ptt.NewBoard on real .BRD/.PASSWDS/boards files and a private segment. " +
+		"tables: dense 0..100, one vacated slot at every position (small n) and at first/middle/last (n=100), several vacated (2..6, n up to 100), full (100, with and without vacated), junk in every unnamed byte; " +
+		"names: valid (2 and 12 bytes, with _ - .), 1 and 13 bytes, leading digit/_/-, '/', '..', space, NUL inside, high byte, case variants of existing names, duplicates of existing and of names created earlier in the history; " +
+		"callers: sysop, PERM_BOARD, group operator of the parent (listed in its BM string), plain user, group operator of another board; parents: valid group board, 0, -1, MAX+1, vacated, beyond BNumber; " +
+		"moderators: nil, empty, existing, missing, other letter case, 4 and 5 existing, over-long segments; attributes/levels from the rule bits and random words; class/title lengths around 4 and 42; missing boards/<c>, left-over directory. " +
+		"smallest shapes enumerated first; malformed stream: torn tail, more than MAX_BOARD records, ill-formed op lines. nontrivial = a create line that reached ptt.NewBoard"
+	if run.Replay != "" {
+		for _, l := range hx.ReplayOps(run.Replay) {
+			do(l)
+		}
+		return
+	}
+	generate()
 }
